@@ -53,12 +53,14 @@ pub fn bounds(prop: Prop, tier: Tier) -> Bounds {
     }
 }
 
-fn assets_for(c: &DescCase, w: &World) -> Assets {
+pub fn assets_for(c: &DescCase, w: &World) -> Assets { assets_for_cap(c, w, CanSign::default()) }
+
+pub fn assets_for_cap(c: &DescCase, w: &World, cs: CanSign) -> Assets {
     let mut a = Assets::new();
     for kl in &c.keys {
         if w.sigs.contains(kl) {
             let k = key(kl);
-            a.keys.insert(((k.fingerprint, "m/7".parse().unwrap()), CanSign::default()));
+            a.keys.insert(((k.fingerprint, "m/7".parse().unwrap()), cs.clone()));
         }
     }
     for (kind, hl) in &c.hashes {
@@ -109,7 +111,7 @@ fn check_one_desc(rep: &Report, prop: Prop, c: &DescCase, thorough: bool, cen: &
     let dsx = c.d.sexpr();
     for w in &ws {
         let spend = make_spend(c.spk.clone(), w.locktime, w.sequence);
-        let sat = WorldSat { world: w, spend: &spend, sign: &c.sign, schnorr_all: false, lie_locks: false };
+        let sat = WorldSat { world: w, spend: &spend, sign: &c.sign, schnorr_all: false, lie_locks: false, cap: crate::world::SignCap::All };
         for mall in [false, true] {
             bump(cen, "evaluations");
             let mode = if mall { "mall" } else { "nonmall" };
@@ -247,7 +249,7 @@ fn check_one_desc(rep: &Report, prop: Prop, c: &DescCase, thorough: bool, cen: &
                 };
                 let spend2 = make_spend(c.spk.clone(), lt, seq);
                 let w2 = World { sigs: w.sigs.clone(), pre: w.pre.clone(), locktime: lt, sequence: seq };
-                let sat2 = WorldSat { world: &w2, spend: &spend2, sign: &c.sign, schnorr_all: false, lie_locks: false };
+                let sat2 = WorldSat { world: &w2, spend: &spend2, sign: &c.sign, schnorr_all: false, lie_locks: false, cap: crate::world::SignCap::All };
                 match guard(|| plan.satisfy(&sat2)) {
                     Ok(Ok((witness, script_sig))) => {
                         bump(cen, "plan_sat_ok");
@@ -509,7 +511,7 @@ fn frag_check<Ctx: Cx>(
             let tsx = t.sexpr();
             for w in worlds(&keys, &hl, &t.afters(), &t.olders(), thorough) {
                 let spend = make_spend(spk.clone(), w.locktime, w.sequence);
-                let sat = WorldSat { world: &w, spend: &spend, sign: &sign, schnorr_all: false, lie_locks: false };
+                let sat = WorldSat { world: &w, spend: &spend, sign: &sign, schnorr_all: false, lie_locks: false, cap: crate::world::SignCap::All };
                 let public_only = w.sigs.is_empty() && w.pre.is_empty();
                 for mall in [false, true] {
                     bump(&mut cen, "frag_evaluations");
